@@ -45,7 +45,9 @@ def _field(rng, n, shape, dims, coords, t0, complex_, name, red=False):
     return xr.DataArray(data, dims=("time",) + tuple(dims), coords=c, name=name)
 
 
-def make_datasets(seed=0, complex_=False, dask=False, kind="single", red=False):
+def make_datasets(seed=0, complex_=False, dask=False, kind="single", red=False, multi=False):
+    if multi:
+        return make_datasets_multi(seed, complex_, dask, kind)
     rng = np.random.default_rng(1000 + seed)
     yx = dict(y=[10, 20, 30], x=[1.5, 2.5, 3.5, 4.5])
     lon = dict(lon=[0, 90, 180, 270, 300])
@@ -77,6 +79,40 @@ def make_datasets(seed=0, complex_=False, dask=False, kind="single", red=False):
         for d in ds.values():
             d.X, d.Y = ch(d.X), ch(d.Y)
     return ds
+
+
+def make_datasets_multi(seed, complex_, dask, kind):
+    """the same three data sets with TWO sample dimensions (time, member): the stacked sample index is a
+    MultiIndex; d1 and d2 have the same number of samples but other labels"""
+    base = make_datasets(seed=seed, complex_=complex_, dask=False, kind=kind)
+
+    def two(o, t0):
+        if o is None:
+            return None
+        if isinstance(o, list):
+            return [two(a, t0) for a in o]
+        n = (o.sizes["time"] // 3) * 3
+        o = o.isel(time=slice(0, n))
+        fd = [d for d in o.dims if d != "time"]
+        vals = np.asarray(o.values).reshape((n // 3, 3) + tuple(o.sizes[d] for d in fd))
+        coords = {d: o[d].values for d in fd}
+        coords["time"] = np.arange(t0, t0 + n // 3)
+        coords["member"] = ["m1", "m2", "m3"]
+        return xr.DataArray(vals, dims=("time", "member") + tuple(fd), coords=coords, name=o.name)
+    out = {}
+    # d1 and d2: same sample count (6 x 3), other time labels; d3: list of two items
+    out["d1"] = DataSetSpec("d1", two(base["d1"].X.isel(time=slice(0, 18)), 0), two(base["d1"].Y.isel(time=slice(0, 18)), 0) if base["d1"].Y is not None else None, ["time", "member"], 1)
+    out["d2"] = DataSetSpec("d2", two(base["d2"].X.isel(time=slice(0, 18)), 100), two(base["d2"].Y.isel(time=slice(0, 18)), 100) if base["d2"].Y is not None else None, ["time", "member"], 1)
+    out["d3"] = DataSetSpec("d3", two([a.isel(time=slice(0, 21)) for a in base["d3"].X], 50),
+                            two([a.isel(time=slice(0, 21)) for a in base["d3"].Y], 50) if base["d3"].Y is not None else None, ["time", "member"], 2)
+    if dask:
+        def ch(o):
+            if isinstance(o, list):
+                return [ch(a) for a in o]
+            return None if o is None else o.chunk({"time": 3})
+        for d in out.values():
+            d.X, d.Y = ch(d.X), ch(d.Y)
+    return out
 
 
 def digest(objs) -> str:
